@@ -124,6 +124,15 @@ theorem equilibrium_accept_implies_dimension_active_only [CharZero α] (q : Quan
     ∀ ir ip, equilibriumCheckS (.qty q) { s with inactReac := ir, inactProd := ip } = .ok () :=
   ⟨equilibrium_accept_implies_dimension q s.nprod s.order h, fun _ _ => h⟩
 
+/-- **Which constructor calls accept.** `Reaction(…, checks=…, dont_check=…)` succeeds (as far as units are concerned) iff not both
+    keywords are given and, when the unit check is among the checks that run, the constant passes it; with the check opted
+    out every constant is accepted. -/
+theorem constructor_accepts_iff (param : PyVal α) (order : ℤ) (cg dg sel : Bool) :
+    reactionCtor param order cg dg sel = .ok () ↔
+      ¬ (cg = true ∧ dg = true) ∧ (sel = true → reactionCheck param order = .ok ()) := by
+  unfold reactionCtor
+  cases cg <;> cases dg <;> cases sel <;> simp
+
 /-- **The equimolar boundary.** For `Σprod = Σreac` (e.g. `A + B = C + D`) the expected unit is the dimensionless quantity
     `molar ** 0` (not the integer 1): an accepted unit-carrying constant is dimensionless — `3 mol/m³`, `3 /s`, `3 mM`, whose
     simplified units have magnitude 1, are refused like `3 M` or `3 /min`. -/
@@ -364,10 +373,10 @@ example : RegistryWF exampleReg := by
 
 /-- `2 A -> B`, `k = 3 /M/h`, `[A] = 13 mol/m³`, `[B] = 0.2 M`: in (cm, min, µmol) units the system returns
     `d[A]/dt = −169/10000`, i.e. `−169/600000 mol m⁻³ s⁻¹ = −2·k·[A]²` in SI (k = 1/1200000, [A] = 13) -/
-example : odeRhs exampleReg [.qty ⟨3, ⟨1/3600000, [3, 0, -1, 0, 0, 0, -1]⟩⟩] [⟨[(0, 2)], [(1, 1)]⟩]
+example : odeRhs exampleReg [.qty ⟨3, ⟨1/3600000, [3, 0, -1, 0, 0, 0, -1]⟩⟩] [{ reac := [(0, 2)], prod := [(1, 1)] }]
     [.qty ⟨13, ⟨1, concDims⟩⟩, .qty ⟨1/5, ⟨1000, concDims⟩⟩] 2 = .ok [-169/10000, 169/20000] := by decide +kernel
 
-example : plainRhs [(1 : Rat)/1200000] [⟨[(0, 2)], [(1, 1)]⟩] [13, 200] 2 = .ok [-169/600000, 169/1200000] := by
+example : plainRhs [(1 : Rat)/1200000] [{ reac := [(0, 2)], prod := [(1, 1)] }] [13, 200] 2 = .ok [-169/600000, 169/1200000] := by
   decide +kernel
 
 example : ([3, 0, -1, 0, 0, 0, -1] : Dims) = rateConstDims 2 := by decide +kernel
@@ -386,7 +395,7 @@ example : asReactions (.qty ⟨2000, ⟨1/1000, [3, 0, 0, 0, 0, 0, -1]⟩⟩ : P
     (some (.qty ⟨3, ⟨1/1000, [3, 0, -1, 0, 0, 0, -1]⟩⟩)) none 2 1 true = .error .valueError := by decide +kernel
 
 /-- a spectator: `A -> B` in a system `A B C` -/
-example : odeRhs exampleReg [.qty ⟨3, ⟨1/60, [0, 0, -1, 0, 0, 0, 0]⟩⟩] [⟨[(0, 1)], [(1, 1)]⟩]
+example : odeRhs exampleReg [.qty ⟨3, ⟨1/60, [0, 0, -1, 0, 0, 0, 0]⟩⟩] [{ reac := [(0, 1)], prod := [(1, 1)] }]
     [.qty ⟨2, ⟨1, concDims⟩⟩, .qty ⟨5, ⟨1/1000, concDims⟩⟩, .qty ⟨1, ⟨1000, concDims⟩⟩] 3 = .error .valueError := by
   decide +kernel
 
@@ -400,6 +409,13 @@ example : equilibriumCheckS (.qty ⟨100000000000000, ⟨1/1000000, [6, 0, 0, 0,
   decide +kernel
 example : equilibriumCheckS (.qty ⟨100000000000000, ⟨1/1000, [3, 0, 0, 0, 0, 0, -1]⟩⟩ : PyVal Rat) ⟨[1, 1], [], [], [1]⟩ =
     .error .valueError := by decide +kernel
+
+/-- `A + (S) -> B + (2 S)` with `k = 3 /min`, SI registry: the inactive solvent `S` (index 2) takes no part in the rate
+    `k·[A]` but receives the net stoichiometry `+1`: d/dt = (−1/20·[A], +, +) with `[A] = 2` -/
+example : odeRhs (siRegistry : Registry Rat) [.qty ⟨3, ⟨1/60, [0, 0, -1, 0, 0, 0, 0]⟩⟩]
+    [{ reac := [(0, 1)], prod := [(1, 1)], inactReac := [(2, 1)], inactProd := [(2, 2)] }]
+    [.qty ⟨2, ⟨1, concDims⟩⟩, .qty ⟨5, ⟨1, concDims⟩⟩, .qty ⟨7, ⟨1, concDims⟩⟩] 3 = .ok [-1/10, 1/10, 1/10] := by
+  decide +kernel
 
 end ChemModel.C10
 
